@@ -252,6 +252,7 @@ class UndirectedMultigraph : private LabeledUndirectedGraph<EdgeMultiplicity> {
                     if (i <= *j) {
                         totalEdgeNumber -= getEdgeLabel(i, *j, false);
                         --BaseClass::edgeNumber;
+                        BaseClass::edgeLabels.erase(orderedEdge(i, *j));
                     }
                     BaseClass::adjacencyList[i].erase(j++);
                 } else {
